@@ -519,6 +519,22 @@ def fcmp(pred, a, b):
         return const(1, 0)
     if pred in _FSWAP:
         pred, a, b = _FSWAP[pred], b, a
+    if is_const(canon(a)) and is_const(canon(b)) and width(a) in (32, 64) and width(a) == width(b):
+        # both operands constant (arises when a caller fixes a branch and constants flow through a merge): fold
+        import struct as _st
+        dec = (lambda v: _st.unpack('<f', _st.pack('<I', v))[0]) if width(a) == 32 else (lambda v: _st.unpack('<d', _st.pack('<Q', v))[0])
+        x, y = dec(const_val(canon(a))), dec(const_val(canon(b)))
+        un = (x != x) or (y != y)
+        base = {'eq': x == y, 'lt': x < y, 'le': x <= y, 'ne': x != y, 'gt': x > y, 'ge': x >= y, 'rd': True, 'no': False}[pred[1:]] if pred not in ('ord', 'uno') else None
+        if pred == 'ord':
+            r_ = not un
+        elif pred == 'uno':
+            r_ = un
+        elif pred[0] == 'o':
+            r_ = (not un) and base
+        else:
+            r_ = un or base
+        return const(1, 1 if r_ else 0)
     if pred in ('ueq', 'ult', 'ule', 'une', 'uno'):
         # an unordered predicate is true whenever an operand is NaN:  cmp(sel(c, NaN, y), k) = c | cmp(y, k)
         for side in (0, 1):
